@@ -332,7 +332,16 @@ func (fc *FnCtx) exec(st *State, s ast.Stmt) []Outcome {
 	case *ast.SelectStmt:
 		return fc.execSelect(st, x)
 	case *ast.SendStmt:
-		panic(unsupported("channel send"))
+		ec := fc.ec(st)
+		c := scalar(ec.eval(x.Chan))
+		v := ec.eval(x.Value)
+		if ci := ec.chanInvOf(x.Chan); ci != nil {
+			pkg := fc.e.pkgs[ci.Pkg]
+			sc := &evalCtx{fc: fc, st: st, spec: true, scope: map[string]Value{ci.Ch: c, ci.Msg: v}, pkg: pkg, noLocals: true, pol: 1}
+			fc.oblige(st, "send", sc.evalBool(ci.Expr), x.Pos(), "channel invariant of "+ci.Elem+" at the send "+exprText(x.Chan)+" <- "+exprText(x.Value)+": "+ci.Text)
+		}
+		// blocking (and so deadlock freedom) is not modelled: the statement is taken to complete
+		return []Outcome{{kind: oFall, st: st}}
 	}
 	panic(unsupported("statement %T", s))
 }
@@ -539,15 +548,25 @@ func (fc *FnCtx) execSelect(st *State, x *ast.SelectStmt) []Outcome {
 		cc := s.(*ast.CommClause)
 		if cc.Comm == nil {
 			def = cc
-		} else {
+		}
+	}
+	if def == nil {
+		return fc.execBlockingSelect(st, x)
+	}
+	for _, s := range x.Body.List {
+		cc := s.(*ast.CommClause)
+		if cc.Comm != nil {
 			if other != nil {
-				panic(unsupported("select with several communication clauses"))
+				panic(unsupported("select with several communication clauses and a default"))
 			}
 			other = cc
 		}
 	}
-	if def == nil || other == nil {
-		panic(unsupported("blocking select"))
+	if def == nil {
+		return fc.execBlockingSelect(st, x)
+	}
+	if other == nil {
+		panic(unsupported("select with a default clause only"))
 	}
 	nd := Var(fc.e.fresher.name("select.nd"), SBool)
 	var ctxErr *Term
@@ -569,6 +588,47 @@ func (fc *FnCtx) execSelect(st *State, x *ast.SelectStmt) []Outcome {
 		return fc.execBlock(s, other.Body)
 	},
 		func(s *State) []Outcome { return fc.execBlock(s, def.Body) })
+}
+
+// execBlockingSelect: a select without default - one of the communications happens (which one is not known; that one
+// of them eventually can is not proved). Receive clauses bind the received value; <-ctx.Done() means ctx.Err() != nil.
+func (fc *FnCtx) execBlockingSelect(st *State, x *ast.SelectStmt) []Outcome {
+	var res []Outcome
+	clauses := x.Body.List
+	for i, s := range clauses {
+		cc := s.(*ast.CommClause)
+		s1 := st
+		if i < len(clauses)-1 {
+			s1 = st.Clone()
+		}
+		ec := fc.ec(s1)
+		switch c := cc.Comm.(type) {
+		case *ast.ExprStmt:
+			ue, ok := ast.Unparen(c.X).(*ast.UnaryExpr)
+			if !ok || ue.Op != token.ARROW {
+				panic(unsupported("select clause %s", exprText(c.X)))
+			}
+			if call, ok := ue.X.(*ast.CallExpr); ok {
+				if sel, ok := call.Fun.(*ast.SelectorExpr); ok && sel.Sel.Name == "Done" {
+					if iv, ok := ec.eval(sel.X).(*IfaceV); ok {
+						s1.Assume(Not(Eq(App("ctx.Err", SInt, iv.Id), Int(0))))
+						break
+					}
+				}
+			}
+			ec.recvFrom(ue.X)
+		case *ast.AssignStmt:
+			fc.execAssign(s1, c)
+		case *ast.SendStmt:
+			for _, o := range fc.exec(s1, c) {
+				_ = o
+			}
+		default:
+			panic(unsupported("select clause %T", cc.Comm))
+		}
+		res = append(res, fc.execBlock(s1, cc.Body)...)
+	}
+	return res
 }
 
 // ---------------------------------------------------------------------------
@@ -1174,6 +1234,16 @@ func (fc *FnCtx) execDefer(st *State, x *ast.DeferStmt) {
 		}})
 		return
 	}
+	// defer close(ch) / other builtins: run the builtin at exit
+	if id, ok := call.Fun.(*ast.Ident); ok {
+		if _, isBuiltin := fc.info.Uses[id].(*types.Builtin); isBuiltin {
+			st.defers = append(st.defers, deferred{run: func(s *State, rets []Value) []Value {
+				fc.ec(s).evalCall(call)
+				return rets
+			}})
+			return
+		}
+	}
 	// defer f(args): evaluate args now
 	ec := fc.ec(st)
 	var argVals []Value
@@ -1276,6 +1346,38 @@ func (fc *FnCtx) applyUsesScope(st *State, where string, extra map[string]Value)
 			sc.pol = -1
 			st.Assume(sc.evalBool(a.Expr))
 			fc.e.trusted["assume clause in the contract of "+fc.name+": "+a.Text] = true
+		}
+	}
+	for _, in := range fc.c.Inits {
+		if in.Where == where && fc.e.applies(&Clause{Props: in.Props}) {
+			fc.firedWhere[in.Where] = true
+			// ghost initialisation: every channel whose tag the clause speaks about must have been made in this
+			// activation and not be initialised yet - then its tag is still free to choose
+			sc := fc.specCtx(st, extra)
+			ok := True
+			ast.Inspect(in.Expr, func(n ast.Node) bool {
+				call, isCall := n.(*ast.CallExpr)
+				if !isCall {
+					return true
+				}
+				if id, isId := call.Fun.(*ast.Ident); !isId || id.Name != "chantag" || len(call.Args) != 1 {
+					return true
+				}
+				c, isTerm := sc.eval(call.Args[0]).(*Term)
+				fresh := False
+				if isTerm && c.Op == "var" {
+					if f, has := st.ghost["chanfresh:"+c.Name].(*Term); has {
+						fresh = f
+						st.ghost["chanfresh:"+c.Name] = False
+					}
+				}
+				ok = And(ok, fresh)
+				return true
+			})
+			fc.oblige(st, "init", ok, token.NoPos, "ghost initialisation "+in.Text+" @"+where+": the channel must be fresh (made by this call, not yet initialised) - a channel that comes from anywhere else may already carry another call's messages")
+			sh := fc.specCtx(st, extra)
+			sh.pol = -1
+			st.Assume(sh.evalBool(in.Expr))
 		}
 	}
 	for _, u := range fc.c.Uses {
